@@ -1140,7 +1140,10 @@ static Plan gen_protocol(Rng& r, int tier, std::string const&)
             p.fq = static_cast<u64>(4294967296.0 * 0.02);
             for (auto& c : p.calls) c = 2 + c % 30;
         }
-        p.aux.assign(1, r.below(p.calls.size() + 1));
+        p.aux.assign(1, r.next() >> 8);
+        // an empty or one-call iteration inside the list: its result carries no information and must
+        // neither trigger nor prevent a stop by itself
+        if (r.chance(0.3)) p.calls[r.below(p.calls.size())] = r.below(2);
         break;
     }
 
@@ -1200,9 +1203,11 @@ static void exec_protocol(Plan const& p, Report& rep)
         return;
     }
 
-    // positive target: first pass with target zero and a user callback that never stops records the
-    // cumulative relative errors by an independent implementation
-    std::vector<ld> rho;
+    // positive target: a first pass with a user callback that never stops records, after every
+    // iteration, the relative error of the variance weighted combination (a) as the library's public
+    // accumulate forms it in the numeric type - bit for bit what the built-in callback compares with the
+    // target - and (b) by an independent long double implementation
+    std::vector<ld> rho, rho_lib;
     ld unc = 0;
     {
         Plan q = p;
@@ -1217,25 +1222,33 @@ static void exec_protocol(Plan const& p, Report& rep)
         if (out.threw || out.killed) return;
         rho = reference_rel_errors(s.w->view());
         unc = rel_error_uncertainty(s.w->view(), p.nt);
+        rho_lib = s.w->combined_rel_errors();
     }
 
-    // a relative error that is not a number (nothing but zeros sampled so far) never reaches a target;
-    // zero or infinite ones are not unambiguous cases
+    if (rho_lib.size() != rho.size() || rho.empty()) return;
+
+    // (b) checks (a): the combination itself, wherever it is well conditioned
+    for (std::size_t k = 0; k != rho.size(); ++k)
+    {
+        bool const fa = std::isfinite(rho_lib[k]), fb = std::isfinite(rho[k]);
+        if (fa && fb && rho[k] > 0 && unc < 0.25L &&
+            !(std::fabs(rho_lib[k] - rho[k]) <= (unc + 64 * eps_of(p.nt)) * rho[k]))
+        {
+            rep.fail("C12", "combination", key, fmt(
+                "after iteration %zu the variance weighted combination has relative error %.21Lg, independent reference %.21Lg",
+                k, rho_lib[k], rho[k]));
+            return;
+        }
+    }
+
+    // targets: between neighbouring values, below the smallest, above the largest, and exactly equal to
+    // one of the values (the run must stop when the error is not larger than the target)
     std::vector<ld> sorted;
-    for (ld x : rho)
+    for (ld x : rho_lib)
     {
-        if (x != x) continue;
-        if (!(x > 0) || !std::isfinite(x)) return;
-        sorted.push_back(x);
+        if (x == x && x > 0 && std::isfinite(x)) sorted.push_back(x);
     }
-    if (sorted.size() != rho.size())
-    {
-        rep.probes["relative-error-not-a-number"]++;
-        // only histories in which the zeros are exact (no non-zero value sampled yet) are unambiguous
-        if (!(unc < 1)) return;
-    }
-
-    // candidate targets: geometric means of neighbouring (sorted) values, below the minimum, above the maximum
+    if (sorted.size() != rho_lib.size()) rep.probes["relative-error-not-a-number"]++;
     std::sort(sorted.begin(), sorted.end());
     std::vector<ld> targets;
     if (sorted.empty())
@@ -1244,37 +1257,19 @@ static void exec_protocol(Plan const& p, Report& rep)
     }
     else
     {
-        targets.push_back(sorted.front() / 2);
+        targets.push_back(round_to(p.nt, sorted.front() / 2));
         for (std::size_t i = 0; i + 1 < sorted.size(); ++i)
         {
-            if (sorted[i + 1] > sorted[i] * (1 + 64 * eps_of(p.nt))) targets.push_back(std::sqrt(sorted[i] * sorted[i + 1]));
+            targets.push_back(round_to(p.nt, std::sqrt(sorted[i] * sorted[i + 1])));
         }
-        targets.push_back(std::min<ld>(sorted.back() * 2, 1e30L));
+        targets.push_back(round_to(p.nt, std::min<ld>(sorted.back() * 2, 1e30L)));
+        for (ld x : sorted) targets.push_back(x);   // ties
     }
-    ld const target = round_to(p.nt, targets[p.aux[0] % targets.size()]);
-
-    // unambiguous only if no rho is within rounding of the target
-    for (ld x : rho)
-    {
-        if (std::fabs(x - target) <= (unc + 64 * eps_of(p.nt)) * std::max(x, target))
-        {
-            rep.probes["target-ambiguous-skipped"]++;
-            return;
-        }
-    }
-
-    u64 want = rho.size();
-    bool monotone = true;
-    for (std::size_t k = 0; k != rho.size(); ++k)
-    {
-        if (k != 0 && rho[k] > rho[k - 1]) monotone = false;
-        if (rho[k] <= target)
-        {
-            want = k + 1;
-            break;
-        }
-    }
-    if (!monotone) rep.probes["non-monotone-errors"]++;
+    ld const target = targets[p.aux[0] % targets.size()];
+    if (!(target > 0)) return;
+    bool tie = false;
+    for (ld x : rho_lib) tie = tie || (x == target);
+    if (tie) rep.probes["target-equals-an-error-exactly"]++;
 
     Plan q = p;
     q.target = target;
@@ -1285,10 +1280,11 @@ static void exec_protocol(Plan const& p, Report& rep)
 
     u64 done = 0;
 
-    if (p.variant == 3 && want > 1)
+    if (p.variant == 3 && q.calls.size() > 1)
     {
-        // resume from a checkpoint that already holds some results (made with a user callback)
-        u64 const pre = 1 + p.aux[0] % (want - 1);
+        // resume from a checkpoint that already holds some results (made with a user callback that
+        // never stops, so it may already meet the target)
+        u64 const pre = 1 + (p.aux[0] / 7) % (q.calls.size() - 1);
         RunCtl cu = c3;
         cu.cbk = 1;
         cu.user_stop = ~0ULL;
@@ -1298,18 +1294,35 @@ static void exec_protocol(Plan const& p, Report& rep)
         if (!s.reload("protocol resume")) return;
         done = pre;
         rep.probes["resumed-with-results"]++;
+        if (rho_lib[pre - 1] <= target) rep.probes["resumed-checkpoint-already-meets-target"]++;
     }
+
+    // the run stops at the first iteration it performs at which the combination of all results so far
+    // is not larger than the target (comparisons of numbers of the numeric type: exact)
+    u64 want = rho_lib.size();
+    bool monotone = true;
+    for (std::size_t k = 0; k != rho_lib.size(); ++k)
+    {
+        if (k != 0 && rho_lib[k] > rho_lib[k - 1]) monotone = false;
+        if (k >= done && rho_lib[k] <= target)
+        {
+            want = k + 1;
+            break;
+        }
+    }
+    if (!monotone) rep.probes["non-monotone-errors"]++;
 
     std::vector<u64> rest(q.calls.begin() + done, q.calls.end());
     RunOut const out = s.run(rest, c3);
     if (out.threw || out.killed) return;
-    rep.probes[want < rho.size() ? "target-reached" : "target-not-reached"]++;
+    rep.probes[want < rho_lib.size() ? "target-reached" : "target-not-reached"]++;
 
     if (out.results != want)
     {
         rep.fail("C12", "target-stop-position", key, fmt(
-            "target %.12Lg, cumulative relative errors cross it at iteration %llu, run made %llu iterations",
-            target, (unsigned long long) want, (unsigned long long) out.results));
+            "target %.21Lg%s, relative errors of the combination %s it first at iteration %llu, run made %llu iterations",
+            target, tie ? " (equal to one of the errors)" : "", done ? "(after the resume) reach" : "reach",
+            (unsigned long long) want, (unsigned long long) out.results));
     }
 }
 
